@@ -335,3 +335,155 @@ Definition read_raw_string (allow : bool) (doc : str) : doc_result :=
 
 Definition read_file (allow : bool) (doc : str) : doc_result :=
   run_lines allow (file_lines doc) [] 0.
+
+(** * The tokeniser after the repairs token-end-before-dot and closing-quote-scan
+    (notes/proposed_fixes/C06-*.diff).  [Gen.Consts.nt_fixed_tok] says which of
+    the two texts /repo has; the [_cur] functions at the end follow it.  Both
+    models are kept so that the theorems about either stay checked. *)
+
+(** [_index_of_token_end], repaired: a dot right before the first blank closes
+    the statement and is not part of the token *)
+Definition index_of_token_end_fx (s : str) : Z :=
+  match first_blank s with
+  | Some n =>
+    if (0 <? Z.of_nat n) &&
+       match at_idx s (Z.of_nat n - 1) with Some c => Ascii.eqb c (ch nt_statement_end) | None => false end
+    then Z.of_nat n - 1 else Z.of_nat n
+  | None => if suffixb nt_statement_end s then len s - 1 else len s
+  end.
+
+Definition last_index_bnode_fx (t : str) (i : Z) : Z :=
+  let sub := slice_from t i in
+  index_of_token_end_fx sub + (len t - len sub) - 1.
+
+Definition last_index_number_fx (t : str) (i : Z) : Z :=
+  let sub := slice_from t i in
+  index_of_token_end_fx sub + (len t - len sub) - 1.
+
+(** the scan for the closing quote: [index_of_quotes += 2 if t[q] == "\\" else 1]
+    (the character after a backslash is skipped whatever it is; [cp_advance]
+    measures that one character in bytes) *)
+Fixpoint scan_quote (fuel : nat) (t : str) (q : Z) : res Z :=
+  match fuel with
+  | O => Hang
+  | S f =>
+    if len t <=? q then Ok q
+    else match at_idx t q with
+         | None => Raise EIndex
+         | Some c =>
+           if Ascii.eqb c ch_lit then Ok q
+           else if Ascii.eqb c (ch ntf_escape_char)
+                then scan_quote f t (q + 1 + Z.of_nat (cp_advance (slice_from t (q + 1)) 1))
+                else scan_quote f t (q + 1)
+         end
+  end.
+
+(** [str.isalnum()] on ASCII; a non-ASCII character counts as a letter
+    (modelled, not verified: never consulted on a valid line) *)
+Definition is_alnum_py (c : ascii) : bool :=
+  let n := nat_of_ascii c in
+  (Nat.leb 48 n && Nat.leb n 57) || (Nat.leb 65 n && Nat.leb n 90) || (Nat.leb 97 n && Nat.leb n 122) || Nat.leb 128 n.
+
+(** the language-tag loop: [while k < len(rest) and (rest[k].isalnum() or rest[k] == "-")] *)
+Fixpoint tag_loop (fuel : nat) (rest : str) (k : Z) : res Z :=
+  match fuel with
+  | O => Hang
+  | S f =>
+    if len rest <=? k then Ok k
+    else match at_idx rest k with
+         | None => Raise EIndex
+         | Some c => if is_alnum_py c || Ascii.eqb c (ch ntf_tag_extra_char) then tag_loop f rest (k + 1) else Ok k
+         end
+  end.
+
+Definition last_index_literal_fx (t : str) (i : Z) : res Z :=
+  bind (scan_quote (List.length t + 2) t (i + 1)) (fun q =>
+    if len t <=? q then Ok (len t - 1)
+    else
+      let rest := slice_from t (q + 1) in
+      if prefixb ntf_type_open rest && contains ntf_type_close rest then Ok (q + 1 + find ntf_type_close rest)
+      else if prefixb ntf_lang_char rest then bind (tag_loop (List.length rest + 2) rest 1) (fun k => Ok (q + k))
+      else if prefixb ntf_type_marker rest then Ok (q + index_of_token_end_fx rest)
+      else Ok q).
+
+Fixpoint look_loop_fx (fuel : nat) (line : str) (i : Z) (acc : list str) : res (list str) :=
+  match fuel with
+  | O => Hang
+  | S f =>
+    if i =? len line then Ok (rev acc)
+    else match at_idx line i with
+         | None => Raise EIndex
+         | Some c =>
+           if Ascii.eqb c ch_uri then
+             let last := last_index_uri line i in
+             look_loop_fx f line (last + 1) (slice line i (last + 1) :: acc)
+           else if Ascii.eqb c ch_lit then
+             match last_index_literal_fx line i with
+             | Ok last => look_loop_fx f line (last + 1) (slice line i (last + 1) :: acc)
+             | Raise e => Raise e
+             | Hang => Hang
+             end
+           else if Ascii.eqb c ch_bnode then
+             let last := last_index_bnode_fx line i in
+             look_loop_fx f line (last + 1) (slice line i (last + 1) :: acc)
+           else if Ascii.eqb c ch_dot then Ok (rev acc)
+           else if is_ascii_digit c then
+             let last := last_index_number_fx line i in
+             look_loop_fx f line (last + 1) (slice line i (last + 1) :: acc)
+           else look_loop_fx f line (i + 1) acc
+         end
+  end.
+
+Definition look_for_tokens_fx (line : str) : res (list str) :=
+  look_loop_fx (line_fuel line) line 0 [].
+
+Definition tokens_result (allow : bool) (r : res (list str)) : line_result :=
+  match r with
+  | Hang => LHang
+  | Raise e => LRaise e
+  | Ok [a; b; c] =>
+    match tune_token false a with
+    | Hang => LHang | Raise e => LRaise e
+    | Ok s =>
+      match tune_prop b with
+      | Hang => LHang | Raise e => LRaise e
+      | Ok p =>
+        match tune_token allow c with
+        | Hang => LHang | Raise e => LRaise e
+        | Ok o => LYield s p o
+        end
+      end
+    end
+  | Ok _ => LError
+  end.
+
+Definition process_line_fx (allow : bool) (raw_line : str) : line_result :=
+  tokens_result allow (look_for_tokens_fx (strip raw_line)).
+
+Fixpoint run_lines_g (pl : str -> line_result) (lines : list str) (acc : list (term * str * term)) (errs : nat) : doc_result :=
+  match lines with
+  | [] => DocDone (rev acc) errs
+  | l :: rest =>
+    match pl l with
+    | LYield s p o => run_lines_g pl rest ((s, p, o) :: acc) errs
+    | LError => run_lines_g pl rest acc (S errs)
+    | LRaise e => DocRaise (rev acc) errs e
+    | LHang => DocHang (rev acc) errs
+    end
+  end.
+
+Definition read_raw_string_fx (allow : bool) (doc : str) : doc_result :=
+  run_lines_g (process_line_fx allow) (raw_string_lines doc) [] 0.
+
+Definition read_file_fx (allow : bool) (doc : str) : doc_result :=
+  run_lines_g (process_line_fx allow) (file_lines doc) [] 0.
+
+(** ** the reader /repo has now *)
+Definition read_raw_string_cur (allow : bool) (doc : str) : doc_result :=
+  if nt_fixed_tok then read_raw_string_fx allow doc else read_raw_string allow doc.
+
+Definition read_file_cur (allow : bool) (doc : str) : doc_result :=
+  if nt_fixed_tok then read_file_fx allow doc else read_file allow doc.
+
+Definition process_line_cur (allow : bool) (line : str) : line_result :=
+  if nt_fixed_tok then process_line_fx allow line else process_line allow line.
